@@ -156,8 +156,10 @@ def live_tables_check(tr, tb, prop=None):
         if prop not in TABLE_OWNERS["severity"]:
             notes.append(f"the generated severity table differs from the live parser on {sev_bad[:5]} (spelling, live, generated); this property's theorems do not depend on it, its correspondence components decide")
         else:
-            raise Broken("the severity table the theorems were checked over is not what the running BlockSeverity::from_str accepts",
-                         f"(spelling, live value, generated value): {sev_bad[:20]}\ntranslator: {tr.get('errors', {}).get('severity', 'ok')}")
+            b = Broken("the severity table the theorems were checked over is not what the running BlockSeverity::from_str accepts",
+                       f"(spelling, live value, generated value): {sev_bad[:20]}\ntranslator: {tr.get('errors', {}).get('severity', 'ok')}")
+            b.sev_bad = sev_bad
+            raise b
     for t, msg in (tr.get("errors") or {}).items():
         how = {"ext": "equal to the live `language_parsers()` map (suffixes and grammar identity)",
                "severity": "equal to the live `BlockSeverity::from_str` on every case variant of the probe spellings",
